@@ -395,7 +395,12 @@ func (t *Tables) scan() {
 									continue
 								}
 								t.elemMut[g] = true
-							case *ssa.Index, *ssa.Lookup, *ssa.Range, *ssa.DebugRef, *ssa.Slice:
+							case *ssa.Index, *ssa.Lookup, *ssa.Range, *ssa.DebugRef:
+							case *ssa.Slice:
+								// a window of the table: harmless only if it is read, not returned, stored or appended to
+								if !t.readOnlyUses(z, 0) {
+									t.elemMut[g] = true
+								}
 							default:
 								t.elemMut[g] = true
 							}
